@@ -50,6 +50,8 @@ pub fn parts<'a>(cli: &'a Cli) -> Option<(Vec<Part<'a>>, &'static str, Vec<&'sta
                             // larger responses around the write buffer
                             let f = match f {
                                 Finish::Respond { status, body_len, declared, threshold } => Finish::Respond { status, body_len: [body_len, 1023, 1024, 1025, 9000][i % 5], declared, threshold },
+                                // a handler that took the raw writer and panics before using it
+                                Finish::Drop if b == 10 => Finish::WriterPanic,
                                 o => o,
                             };
                             progs.push(Prog { read: ReadPlan::None, finish: f });
